@@ -153,7 +153,7 @@ class FrameOp:
     HOWS = ["append_rows", "append_rows", "append_column", "write_rows", "write_rows", "write_column",
             "write_column", "write_cell", "write_cell", "units", "read",
             "bad_column_len", "bad_dup_column", "bad_unknown_column", "bad_row_oob", "bad_row_width",
-            "bad_cell_oob", "bad_write_column_len"]
+            "bad_cell_oob", "bad_write_column_len", "bad_append_rows_later_row", "bad_append_rows_later_row"]
 
     def gen(self, run, rng):
         frs = run.enum("frame")
@@ -198,7 +198,7 @@ class FrameOp:
                      val=gen_cell(rng, m.cols[ci][1]))
         elif how == "units":
             o["units"] = [P.pick(rng, [None, "mV", "s", "ms", "Hz"]) for _ in m.cols]
-        elif how.startswith("bad") and how not in ("bad_column_len", "bad_dup_column") and not n:
+        elif how.startswith("bad") and how not in ("bad_column_len", "bad_dup_column", "bad_append_rows_later_row") and not n:
             return None
         return o
 
@@ -296,6 +296,9 @@ class FrameOp:
             call = lambda: h.write_column([CELL[m.cols[0][1]][1]] * n, name="no-such-column")  # noqa
         elif how == "bad_write_column_len":
             call = lambda: h.write_column([CELL[m.cols[0][1]][1]] * (n + 1), name=m.cols[0][0])  # noqa
+        elif how == "bad_append_rows_later_row":
+            # a batch whose first rows are fine and whose last row does not fit: refused as a whole
+            call = lambda: h.append_rows([row, row, row + [1]])  # noqa
         elif how == "bad_row_oob":
             call = lambda: h.write_rows([row], [n + 1])  # noqa
         elif how == "bad_row_width":
